@@ -23,8 +23,10 @@ int omp_get_max_threads(void) { int n; __CPROVER_assume(n >= 1); return n; }
  * for astronomically large shapes is therefore not examined */
 uint64_t __CPROVER_uninterpreted_rowlen(uint64_t, uint64_t);
 uint64_t __CPROVER_uninterpreted_rowoff(uint64_t, uint64_t, uint64_t);
-#define ROWLEN(c, d) __CPROVER_uninterpreted_rowlen(c, d)
-#define ROWOFF(i, c, d) __CPROVER_uninterpreted_rowoff(i, c, d)
+uint64_t __CPROVER_uninterpreted_umul(uint64_t, uint64_t);
+#define UMUL(a, b) __CPROVER_uninterpreted_umul(a, b)   /* rule M2-mul: every product of size variables, left-associated */
+#define ROWLEN(c, d) UMUL(c, d)
+#define ROWOFF(i, c, d) UMUL(UMUL(i, c), d)
 uint64_t __CPROVER_uninterpreted_tree(uint64_t);
 #define TREE(o) __CPROVER_uninterpreted_tree(o)
 
